@@ -177,6 +177,12 @@ def tie(ctx):
             flags = f.get("flags", "????")
             stats["flags of this run (if/case/else restore, x.f scope-first): " + flags] += 1
             wf, nns = f.get("wf") == "t", f.get("no_ns_shadow") == "t"
+            tok = f.get("tree_ok") == "t"
+            stats["hypothesis tree_ok holds (C07_resolver_total: module table consistent)"] += tok
+            if tok and (c.startswith("PANIC") or c.startswith("OUTOFFUEL")):
+                mism.append({"case": "C07_resolver_total fails on a tie input", "pinned": c[:300]})
+            if not tok:
+                mism.append({"case": "tree_ok is false on a tree produced by the real tree()", "hyp": h})
             stats["hypothesis wf_ast holds"] += wf
             stats["hypothesis no_ns_shadow holds"] += nns
             stats["hypotheses of C09_resolve_refines_modulo_ns hold (wf_ast and no_ns_shadow)"] += wf and nns
